@@ -48,12 +48,23 @@ def reset_globals():
 UUID_RE = re.compile(r'x_[0-9a-f]{8}_[0-9a-f]{4}_[0-9a-f]{4}_[0-9a-f]{4}_[0-9a-f]{12}')
 
 
+# variables the compiler derives from an auxiliary predicate name: vowels stripped, upper-cased
+UUID_VAR_RE = re.compile(r'X_(?:[0-9BCDF]*_){4}[0-9BCDF]{4,}')
+
+
 def norm_uuid(text: str) -> str:
     seen = {}
+    seenv = {}
+
+    def subv(m):
+        if m.group(0) not in seenv:
+            seenv[m.group(0)] = f'X_AUX{len(seenv)}'
+        return seenv[m.group(0)]
+    text = UUID_VAR_RE.sub(subv, text)
 
     def sub(m):
         if m.group(0) not in seen:
-            seen[m.group(0)] = f'x_#{len(seen)}'
+            seen[m.group(0)] = f'x_aux{len(seen)}'
         return seen[m.group(0)]
     return UUID_RE.sub(sub, text)
 
